@@ -31,6 +31,9 @@ type cfgT struct {
 	Seed     int64 `json:"seed"` // placement seed (shard uuids)
 	Down     int   `json:"down"` // node index that goes down, -1 = none (never node 0 of the entry rotation at that time)
 	DownFrom int   `json:"downFrom"`
+	// BreakAt: before step BreakAt-1 every cached RPC connection of every node breaks (as after
+	// the peers restarted) while all servers stay up; 0 = never
+	BreakAt int `json:"breakAt,omitempty"`
 }
 
 type opRef struct {
@@ -145,6 +148,12 @@ func (s *system) Apply(raw json.RawMessage) []seqx.Viol {
 			if s.alive[i] {
 				n.VerifDropRPCClients()
 			}
+		}
+	}
+	if s.cfg.BreakAt > 0 && s.step >= s.cfg.BreakAt-1 {
+		// every request from here on starts on stale cached connections
+		for _, n := range s.nodes {
+			n.VerifBreakRPCClients()
 		}
 	}
 	defer func() { s.step++ }()
@@ -553,7 +562,7 @@ func (s *system) Close() {
 }
 
 func master(cfg *harness.Config, rep *harness.Report) {
-	rep.Rule = "deployments: 1-3 real in-process nodes (RPC over loopback, RpcRetries 1) x MaxShardPointCount {1,2} x placement seeds (deterministic shard-uuid streams; the evidence lists the distinct shard->server patterns seen) x {all servers up, server k closed before step j}; every history up to the depth over {insert 2, insert 3, (one deployment with 30 points per shard: insert 90,) update 1 existing + 1 unknown, delete 1 existing + 1 unknown, delete all}, each request entering through the next live node in rotation. After every request, through EVERY live node: each id is found exactly once iff stored, with its document; filter search for limit {1,2,100} x offset {0,1} x sort {none, asc, desc}: <= limit, no duplicate, every result a stored point, globally sorted, exact set when limit covers the matches, exactly `limit` results when every shard alone could fill the page; flat search globally ordered by hybrid score; update/delete failure lists = requested ids no shard processed, 'not found' iff every shard answered"
+	rep.Rule = "deployments: 1-3 real in-process nodes (RPC over loopback, RpcRetries 1) x MaxShardPointCount {1,2} x placement seeds (deterministic shard-uuid streams; the evidence lists the distinct shard->server patterns seen) x {all servers up, server k closed before step j, all servers up but every cached RPC connection broken from step j on}; every history up to the depth over {insert 2, insert 3, (one deployment with 30 points per shard: insert 90,) update 1 existing + 1 unknown, delete 1 existing + 1 unknown, delete all}, each request entering through the next live node in rotation. After every request, through EVERY live node: each id is found exactly once iff stored, with its document; filter search for limit {1,2,100} x offset {0,1} x sort {none, asc, desc}: <= limit, no duplicate, every result a stored point, globally sorted, exact set when limit covers the matches, exactly `limit` results when every shard alone could fill the page; flat search globally ordered by hybrid score; update/delete failure lists = requested ids no shard processed, 'not found' iff every shard answered"
 	rep.Assumptions = []string{"ids unique per collection (the API's precondition)", "the offset heuristic is not claimed exact", "when the user's own routing node is down nothing is claimed (the collection record is unreachable)", "a search with a shard server down may fail as a whole"}
 	p := pool.New(pool.Options{CPUsPerWorker: 2, JobTimeout: 180 * time.Second})
 	if cfg.Replay != "" {
@@ -578,19 +587,25 @@ func master(cfg *harness.Config, rep *harness.Report) {
 				if nodes == 1 && seed > 1 {
 					continue
 				}
-				specs = append(specs, seqx.Spec{Name: fmt.Sprintf("%dnodes/mspc%d/seed%d", nodes, mspc, seed), Cfg: cfgT{nodes, mspc, seed, -1, 0}, Alphabet: alpha, Depth: depth})
+				specs = append(specs, seqx.Spec{Name: fmt.Sprintf("%dnodes/mspc%d/seed%d", nodes, mspc, seed), Cfg: cfgT{Nodes: nodes, MSPC: mspc, Seed: seed, Down: -1}, Alphabet: alpha, Depth: depth})
 				if nodes > 1 && seed <= 2 {
 					for down := 0; down < nodes; down++ {
 						for from := 1; from < depth; from++ {
-							specs = append(specs, seqx.Spec{Name: fmt.Sprintf("%dnodes/mspc%d/seed%d/node%d-down-from-step%d", nodes, mspc, seed, down, from), Cfg: cfgT{nodes, mspc, seed, down, from}, Alphabet: alpha, Depth: depth})
+							specs = append(specs, seqx.Spec{Name: fmt.Sprintf("%dnodes/mspc%d/seed%d/node%d-down-from-step%d", nodes, mspc, seed, down, from), Cfg: cfgT{Nodes: nodes, MSPC: mspc, Seed: seed, Down: down, DownFrom: from}, Alphabet: alpha, Depth: depth})
 						}
 					}
 				}
 			}
 		}
 	}
+	// stale connections: all servers up, but from step j on every request finds the cached RPC clients broken
+	for _, nodes := range []int{2, 3} {
+		for from := 1; from <= depth; from++ {
+			specs = append(specs, seqx.Spec{Name: fmt.Sprintf("%dnodes/mspc1/seed1/connections-break-from-step%d", nodes, from), Cfg: cfgT{Nodes: nodes, MSPC: 1, Seed: 1, Down: -1, BreakAt: from}, Alphabet: alpha, Depth: depth})
+		}
+	}
 	// several full shards: 90 points at 30 per shard on two nodes
-	specs = append(specs, seqx.Spec{Name: "2nodes/mspc30/90-points", Cfg: cfgT{2, 30, 1, -1, 0}, Starts: [][]any{{opRef{"insert 90"}}}, Alphabet: []any{opRef{"delete 1 existing + 1 unknown"}, opRef{"update 1 existing + 1 unknown"}}, Depth: 1})
+	specs = append(specs, seqx.Spec{Name: "2nodes/mspc30/90-points", Cfg: cfgT{Nodes: 2, MSPC: 30, Seed: 1, Down: -1}, Starts: [][]any{{opRef{"insert 90"}}}, Alphabet: []any{opRef{"delete 1 existing + 1 unknown"}, opRef{"update 1 existing + 1 unknown"}}, Depth: 1})
 	seqx.Explore(cfg, rep, p, specs)
 }
 
